@@ -2,6 +2,7 @@ package c09
 
 import (
 	"os"
+	"runtime/debug"
 	"testing"
 
 	"github.com/zerx-lab/wordZero/pkg/document"
@@ -11,6 +12,11 @@ import (
 
 func TestMain(m *testing.M) {
 	document.SetGlobalLevel(document.LogLevelSilent)
+	if os.Getenv("GOGC") == "" {
+		// every step deep-copies the table: the heap is small and short-lived, collecting it at the default rate costs
+		// half of the run on a loaded machine
+		debug.SetGCPercent(800)
+	}
 	kit.TestMain(m, 2500, 25000)
 }
 
@@ -84,21 +90,54 @@ func fixed() []Case {
 			{K: "find", S: []string{"+more"}},
 			{K: "copy", F: 0},
 		}},
+		// a table read from a file whose last row is one cell short (ragged rows): calls that reach beyond the short
+		// row, calls inside every row, row edits, merges, the iterator family and CopyTable
+		{Via: "open", Rows: 3, Cols: 3, Open: &OpenSpec{Grid: []int{2000, 2000, 2000}, Rows: [][]OpenCell{
+			{{T: []string{"a0"}}, {T: []string{"b0"}}, {T: []string{"c0"}}},
+			{{T: []string{"a1"}}, {T: []string{"b1"}, NoPr: true}, {T: []string{"c1"}}},
+			{{T: []string{"a2"}}, {T: []string{"b2", "b2'"}}},
+		}}, Ops: []Op{
+			{K: "inscol", I: []int{n, 1500, 2}, S: []string{"x"}},
+			{K: "appcol", I: []int{1500, 1}},
+			{K: "delcol", I: []int{v(2)}},
+			{K: "delcols", I: []int{v(1), v(2)}},
+			{K: "mergev", I: []int{v(1), v(2), v(2)}},
+			{K: "merger", I: []int{v(0), v(2), v(1), v(2)}},
+			{K: "mergeh", I: []int{v(2), v(1), v(2)}},
+			{K: "get", I: []int{v(2), v(2)}},
+			{K: "iter"},
+			{K: "eachrow", I: []int{v(2)}},
+			{K: "eachcol", I: []int{v(2)}},
+			{K: "range", I: []int{v(0), v(0), v(2), v(2)}},
+			{K: "find", S: []string{"b2"}},
+			{K: "copy", F: 0},
+			{K: "settext", I: []int{v(2), v(1)}, S: []string{"w"}},
+			{K: "inscol", I: []int{v(1), 900, 2}, S: []string{"k"}},
+			{K: "delcol", I: []int{v(0)}},
+			{K: "insrow", I: []int{v(2), 2}, S: []string{"r"}},
+			{K: "approw", I: []int{1}},
+			{K: "delrow", I: []int{v(0)}},
+			{K: "mergev", I: []int{v(0), v(1), v(0)}},
+			{K: "unmerge", I: []int{v(0), v(0)}},
+			{K: "clear"},
+		}},
 	}
 }
 
 func TestC09(t *testing.T) {
 	kit.Main(t, kit.Spec[Case]{
 		ID: "C09", Level: "exploration",
-		Rule: "a table from CreateTable/AddTable (1-6 x 1-6; widths derived, given or of the wrong count; initial data absent, full, ragged, oversize) and a history of 1-30 calls over the row/column/cell/merge/unmerge/row-property/copy/iterator API. Positions are state-independent selectors resolved against the current size: every valid index, -1, -2, n, n+1, inverted and single-cell ranges, data shorter than / equal to / longer than the table. Before each call the table is deep-copied; the call is judged against that copy: no panic; error => deep-equal to the copy; success => grid invariants, accessors agree with the structure, and post = f(copy, arguments) for the plain rows-by-columns model (exact on rectangular tables and for row edits, plain-row merges and cell-level calls in any state; invariants + untouched-cell rules where the API leaves the addressed cell open on merged rows). A failure attributed to an open finding rolls the table back to the copy and the history continues. non-trivial = >= 2 successful structural edits, >= 1 successful merge or nested table, >= 1 rejected out-of-range call; distinct = distinct sequence of (call kind, outcome ok/err/kf, rectangular or not before the call)",
+		Rule: "a start table - four in five from CreateTable/AddTable (1-6 x 1-6; widths derived, given or of the wrong count; initial data absent, full, ragged, oversize), one in five read by OpenFromMemory from a .docx the harness writes itself (1-5 grid columns x 1-5 rows; in 8 of 10 with ragged rows: some rows hold fewer cells than the grid, none more, one row is full; with or without pre-existing w:gridSpan cells, a vertical merge written as restart/continue/bare w:vMerge, a nested table, cells without w:tcPr, two-paragraph and run-less cells) - and a history of 1-30 calls over the row/column/cell/merge/unmerge/row-property/copy/iterator API. Positions are state-independent selectors resolved against the current size: every valid index, -1, -2, n, n+1, inverted and single-cell ranges, data shorter than / equal to / longer than the table. Before each call the table is deep-copied; the call is judged against that copy: no panic; error => deep-equal to the copy; success => grid invariants, accessors agree with the structure, and post = f(copy, arguments) for the plain rows-by-columns model (exact on rectangular tables and for row edits, plain-row merges and cell-level calls in any state; invariants + untouched-cell rules where the API leaves the addressed cell open on merged rows). On a state whose rows do not span the grid before the call (ragged) a grid invariant is demanded after the call only if it held before it, a row made by the call must span the grid, and column edits are judged by the plain model in every row that reaches the position when no cell spans two columns. A failure attributed to an open finding rolls the table back to the copy and the history continues. non-trivial = >= 2 successful structural edits, >= 1 successful merge or nested table, >= 1 rejected out-of-range call; distinct = distinct sequence of (call kind, outcome ok/err/kf, rectangular or not before the call)",
 		Gen:  genCase, Run: run, Findings: findings, Fixed: fixed,
 		MustSee: map[string]float64{"history:successful-merge": 0.4, "history:merge-and-no-rollback": 0.25, "history:copy": 0.1, "pos:n": 0.3, "pos:n+1": 0.3,
-			"pos:negative": 0.3, "range:inverted": 0.1, "history:nested-table": 0.1, "history:non-rectangular-state": 0.2, "data:longer-than-table": 0.05},
+			"pos:negative": 0.3, "range:inverted": 0.1, "history:nested-table": 0.1, "history:non-rectangular-state": 0.2, "data:longer-than-table": 0.05,
+			"start:opened-ragged": 0.1, "start:opened-merged": 0.03, "ragged:rejected-structural-edit": 0.08, "ragged:accepted-structural-edit": 0.08},
 		Assumptions: []string{
 			"a table has at least one row and every row at least one cell (the API's own documented refusal to delete the last row/column); a call whose row/column/range lies outside the table under every reading (negative, >= rows, >= grid width, inverted) must be refused, a call inside under every reading must be accepted, anything else (data longer than the table, single-cell merge ranges, a column index between a merged row's physical cell count and the grid width) may go either way",
 			"on a row with a horizontally merged cell the API does not say whether a column index counts physical cells or grid columns: cells right of a spanned cell are only held to the invariants and to 'at most one cell of that row changed'",
 			"the target cell's new content is demanded only where the API documents it (SetCellText on a one-paragraph cell sets the text, on other cells the text starts with it; formatted text replaces; Add* append; Clear* as documented)",
-			"tables obtained by reopening a saved document are not part of this check's domain (CreateTable/AddTable only)",
+			"tables read from a file: only what OpenFromMemory makes of a schema-valid w:tbl with w:tblPr and w:tblGrid whose rows are not wider than the grid; a case in which the reader does not deliver the table as written is counted (opened-not-as-written) and not judged (C03/C04/C06 judge the reader); tables without a grid or with rows wider than the grid are outside the domain",
+			"a table that arrives with ragged rows cannot be made a well-formed grid by one call: after a successful call a grid invariant (rows span the grid / cells have a paragraph / rows have a cell / continuation under a matching start) is demanded only if it held before the call; the error clause (an error leaves the table exactly as it was) and the no-panic clause are demanded in every state",
 		},
 	})
 }
